@@ -57,6 +57,12 @@ def run(tier: str) -> int:
             d.mkdir(parents=True, exist_ok=True)
             ext = {"Python": "py", "JavaScript": "js", "Java": "java", "TypeScript": "ts", "C": "c"}[lang]
             (d / f"m{k}.{ext}").write_text(text)
+        # byte-identical files of different languages, empty files: a file's result must not depend on neighbours
+        twin = "int shape(int a) {\n  if (a) {\n    return a;\n  }\n  return 0;\n}\n"
+        for rel, text in (("legacy/shape.c", twin), ("modern/shape.cpp", twin), ("web/same.js", "function f(a) {\n  return a;\n}\n"), ("web/same.ts", "function f(a) {\n  return a;\n}\n"),
+                          ("pkg/__init__.py", ""), ("pkg/stub.js", ""), ("a/copy.py", POOL["f1"][1]), ("b/copy.py", POOL["f1"][1])):
+            (gen / rel).parent.mkdir(parents=True, exist_ok=True)
+            (gen / rel).write_text(text)
         corpus_copy = top / "corpus"
         shutil.copytree(CORPUS, corpus_copy)
         trees = [("generated", str(gen)), ("corpus", str(corpus_copy))]
@@ -70,7 +76,8 @@ def run(tier: str) -> int:
             for pi, part in enumerate(parts):
                 nproc += 1
                 spec = {"proc": nproc, "pool": {f: list(POOL[f]) for f in files}, "schedules": part,
-                        "trees": [[n, r, rng.randrange(1 << 30)] for (n, r) in trees for _ in range(b["orders"] if pi == 0 else 1)]}
+                        "trees": [[n, r, rng.randrange(1 << 30)] for (n, r) in trees for _ in range(b["orders"] if pi == 0 else 1)],
+                        "alone": [["generated", str(gen)]] if pi == 0 else []}
                 inp, outp = wd / f"in_{nproc}.json", wd / f"out_{nproc}.ndjson"
                 inp.write_text(json.dumps(spec))
                 env = dict(os.environ, PYTHONHASHSEED=str(s))
